@@ -52,10 +52,13 @@ def parseBeh (s : String) : Option Beh :=
 def handleLine (line : String) : String :=
   match line.splitOn " " with
   | [id, flags, behs, ops] =>
-    let cfg0 := parseCfg (flags.splitOn ",")
-    -- an explicit --on-busy-update wins over what --signal implies
-    let cfg := if (flags.splitOn ",").any (·.startsWith "--on-busy-update") then
-        { cfg0 with mode := (parseCfg ((flags.splitOn ",").filter (·.startsWith "--on-busy-update"))).mode } else cfg0
+    let fl := flags.splitOn ","
+    let cfg0 := parseCfg fl
+    -- the mode is decided by `normalise`: --signal, else -r, else the explicit mode, else the default
+    let explicitMode : Option Mode := fl.findSome? (fun f => match f.splitOn "=" with
+      | ["--on-busy-update", "do-nothing"] => some .doNothing | ["--on-busy-update", "queue"] => some .queue
+      | ["--on-busy-update", "restart"] => some .restart | ["--on-busy-update", "signal"] => some .signal | _ => none)
+    let cfg := { cfg0 with mode := normaliseMode explicitMode (fl.contains "-r" || fl.contains "--restart") cfg0.signal }
     let bs := (behs.splitOn ",").filterMap parseBeh
     let delay := (flags.splitOn ",").findSome? (fun f => match f.splitOn "=" with | ["--delay-run", d] => some (durMs d) | _ => none)
     let init : C := { x := { st := { cfg := Fixes.all, behs := bs, hookSet := true, parked := true } }, cfg := cfg, delayRun := delay }
